@@ -6,6 +6,9 @@
  *                              -> "SKIP" | "OK <prio> <glob><pathglob> <flags> <namehex>" | "ERR"
  * xdec  <hexvalue>             decode() of filemap_xattr.c             -> "OK <hex>" | "ERR"
  * xfile <hex file content>     xattr_open_map_file on a temp file      -> "OK <path>{<key>=<val>,...};..." | "ERR"
+ *                              (+ " LEAK" when C07_LEAKCHECK=1 and, after xattr_close_map_file resp. after the
+ *                              refusal, LeakSanitizer finds a block nobody points to any more: the first such case of
+ *                              a run only, LSan's recoverable check is cumulative)
  * Every line is copied into an exactly sized heap block (strlen + 1) so that ASan sees any over-read / over-write.
  * sort: additionally every stage runs on an exactly sized block of its own input (sort_staged).
  */
@@ -18,6 +21,23 @@
 #undef print_error
 
 #include <inttypes.h>
+#if defined(__SANITIZE_ADDRESS__)
+#include <sanitizer/lsan_interface.h>
+#define HAVE_LSAN 1
+#endif
+
+static int leakcheck;	/* C07_LEAKCHECK=1: ask LeakSanitizer after every xfile case until the first leak */
+
+static const char *leak_suffix(void)
+{
+#ifdef HAVE_LSAN
+	if (leakcheck && __lsan_do_recoverable_leak_check()) {
+		leakcheck = 0;
+		return " LEAK";
+	}
+#endif
+	return "";
+}
 
 static int hv(int c) { return c <= '9' ? c - '0' : c - 'a' + 10; }
 
@@ -180,7 +200,7 @@ static void do_xfile(char *line, const char *tmp)
 	free(raw);
 	map = xattr_open_map_file(tmp);
 	if (map == NULL) {
-		puts("ERR");
+		printf("ERR%s\n", leak_suffix());
 	} else {
 		struct XattrMapPattern *p;
 		fputs("OK ", stdout);
@@ -196,8 +216,9 @@ static void do_xfile(char *line, const char *tmp)
 			}
 			fputs("};", stdout);
 		}
-		fputs("\n", stdout);
 		xattr_close_map_file(map);
+		map = NULL;
+		printf("%s\n", leak_suffix());
 	}
 }
 
@@ -206,6 +227,8 @@ int main(int argc, char **argv)
 	static char line[1 << 22];
 	const char *mode = argc > 1 ? argv[1] : "split";
 	const char *tmp = argc > 2 ? argv[2] : "/var/tmp/c07_xfile.tmp";
+
+	leakcheck = getenv("C07_LEAKCHECK") != NULL && !strcmp(getenv("C07_LEAKCHECK"), "1");
 
 	while (fgets(line, sizeof(line), stdin)) {
 		size_t n = strlen(line);
